@@ -15,6 +15,16 @@ use std::hash::{Hash, Hasher};
 pub type CS = ConstraintSystemRef<Fq>;
 pub type Af = <El as CurveGroup>::Affine;
 
+thread_local! {
+    /// "blank" synthesis: every value closure of the harness' allocations answers AssignmentMissing, the
+    /// way a circuit with `None` witnesses is synthesised for key generation
+    pub static BLANK: std::cell::Cell<bool> = std::cell::Cell::new(false);
+}
+/// value closure for an allocation: the value, or AssignmentMissing in blank mode
+pub fn val<T>(x: T) -> impl FnOnce() -> Result<T, SynthesisError> {
+    move || if BLANK.with(|b| b.get()) { Err(SynthesisError::AssignmentMissing) } else { Ok(x) }
+}
+
 pub fn new_cs(setup: bool) -> CS {
     let cs = ConstraintSystem::<Fq>::new_ref();
     cs.set_optimization_goal(OptimizationGoal::Constraints);
@@ -169,20 +179,20 @@ pub struct Gadget {
 pub fn raw(cs: &CS, e: &El) -> Result<ElementVar, SynthesisError> {
     let e = *e;
     let before = cs.num_witness_variables();
-    let r = ElementVar::new_variable_omit_prime_order_check(cs.clone(), || Ok(e), AllocationMode::Witness);
+    let r = ElementVar::new_variable_omit_prime_order_check(cs.clone(), val(e), AllocationMode::Witness);
     crate::tamper::note_inputs(before, cs.num_witness_variables());
     r
 }
 pub fn wf(cs: &CS, x: &Fq) -> Result<FqVar, SynthesisError> {
     let x = *x;
     let before = cs.num_witness_variables();
-    let r = FqVar::new_witness(cs.clone(), || Ok(x));
+    let r = FqVar::new_witness(cs.clone(), val(x));
     crate::tamper::note_inputs(before, cs.num_witness_variables());
     r
 }
 pub fn wb(cs: &CS, x: bool) -> Result<Boolean<Fq>, SynthesisError> {
     let before = cs.num_witness_variables();
-    let r = Boolean::new_witness(cs.clone(), || Ok(x));
+    let r = Boolean::new_witness(cs.clone(), val(x));
     crate::tamper::note_inputs(before, cs.num_witness_variables());
     r
 }
@@ -221,7 +231,7 @@ fn f2(i: &Inp) -> Fq {
 pub fn lazy_w(cs: &CS, x: &Fq) -> Result<ElementVar, SynthesisError> {
     let x = *x;
     let before = cs.num_witness_variables();
-    let r = AllocVar::<Fq, Fq>::new_witness(cs.clone(), || Ok(x));
+    let r = AllocVar::<Fq, Fq>::new_witness(cs.clone(), val(x));
     crate::tamper::note_inputs(before, cs.num_witness_variables());
     r
 }
@@ -291,6 +301,55 @@ pub fn gadgets() -> Vec<Gadget> {
         }
         Some(Out::E(Group::mul_bigint(p, &limbs)))
     });
+    // --- scalar multiplication with bit strings that mix allocation modes (clamped scalars, fixed offset
+    //     blocks, public bits): the gadget specialises on constant bits
+    fn mixed_bits(cs: &CS, bits: &[bool], mode_of: impl Fn(usize, usize) -> u8) -> Result<Vec<Boolean<Fq>>, SynthesisError> {
+        let n = bits.len();
+        bits.iter().enumerate().map(|(k, x)| match mode_of(k, n) {
+            0 => Ok(Boolean::constant(*x)),
+            _ => wb(cs, *x),
+        }).collect()
+    }
+    fn nat_mul(i: &Inp) -> Option<Out> {
+        let Inp::EBits(p, bits) = i else { panic!("harness") };
+        let mut limbs = vec![0u64; (bits.len() + 63) / 64];
+        for (k, bit) in bits.iter().enumerate() {
+            if *bit {
+                limbs[k / 64] |= 1 << (k % 64);
+            }
+        }
+        Some(Out::E(Group::mul_bigint(p, &limbs)))
+    }
+    g!(v, "scalar_mul_le (constant head, witness tail)", "EBits", false, |cs, i| {
+        let Inp::EBits(p, bits) = i else { panic!("harness") };
+        let bv = mixed_bits(cs, bits, |k, n| if k < n / 2 { 0 } else { 1 })?;
+        Ok(OutVar::E(raw(cs, p)?.scalar_mul_le(bv.iter())?))
+    }, |i| nat_mul(i));
+    g!(v, "scalar_mul_le (constant tail, witness head)", "EBits", false, |cs, i| {
+        let Inp::EBits(p, bits) = i else { panic!("harness") };
+        let bv = mixed_bits(cs, bits, |k, n| if k < n / 3 + 1 { 1 } else { 0 })?;
+        Ok(OutVar::E(raw(cs, p)?.scalar_mul_le(bv.iter())?))
+    }, |i| nat_mul(i));
+    g!(v, "scalar_mul_le (constant and witness bits interleaved)", "EBits", false, |cs, i| {
+        let Inp::EBits(p, bits) = i else { panic!("harness") };
+        let bv = mixed_bits(cs, bits, |k, n| if (k * 7 + n) % 5 < 2 { 0 } else { 1 })?;
+        Ok(OutVar::E(raw(cs, p)?.scalar_mul_le(bv.iter())?))
+    }, |i| nat_mul(i));
+    g!(v, "scalar_mul_le (constant bits only)", "EBits", false, |cs, i| {
+        let Inp::EBits(p, bits) = i else { panic!("harness") };
+        let bv = mixed_bits(cs, bits, |_, _| 0)?;
+        Ok(OutVar::E(raw(cs, p)?.scalar_mul_le(bv.iter())?))
+    }, |i| nat_mul(i));
+    g!(v, "scalar_mul_le (constant base point, witness bits)", "EBits", false, |cs, i| {
+        let Inp::EBits(p, bits) = i else { panic!("harness") };
+        let bv = mixed_bits(cs, bits, |_, _| 1)?;
+        Ok(OutVar::E(ElementVar::new_constant(cs.clone(), *p)?.scalar_mul_le(bv.iter())?))
+    }, |i| nat_mul(i));
+    g!(v, "scalar_mul_le (constant base point and interleaved constant bits)", "EBits", false, |cs, i| {
+        let Inp::EBits(p, bits) = i else { panic!("harness") };
+        let bv = mixed_bits(cs, bits, |k, n| if (k * 3 + n) % 4 == 0 { 1 } else { 0 })?;
+        Ok(OutVar::E(ElementVar::new_constant(cs.clone(), *p)?.scalar_mul_le(bv.iter())?))
+    }, |i| nat_mul(i));
     // --- equality family
     g!(v, "is_eq", "EE", false, |cs, i| Ok(OutVar::B(raw(cs, &e1(i))?.is_eq(&raw(cs, &e2(i))?)?)), |i| Some(Out::B(e1(i) == e2(i))));
     g!(v, "is_neq", "EE", false, |cs, i| Ok(OutVar::B(raw(cs, &e1(i))?.is_neq(&raw(cs, &e2(i))?)?)), |i| Some(Out::B(e1(i) != e2(i))));
@@ -306,8 +365,8 @@ pub fn gadgets() -> Vec<Gadget> {
     g!(v, "conditionally_select (both lazy encodings)", "FF", true, |cs, i| { let gd = wb(cs, true)?; Ok(OutVar::E(ElementVar::conditionally_select(&gd, &lazy_w(cs, &f1(i))?, &lazy_w(cs, &f2(i))?)?)) }, |i| native_pair(i).map(|(a, _)| Out::E(a)));
     g!(v, "lazy + lazy", "FF", true, |cs, i| Ok(OutVar::E(lazy_w(cs, &f1(i))? + lazy_w(cs, &f2(i))?)), |i| native_pair(i).map(|(a, bb)| Out::E(a + bb)));
     // --- the same allocation forced by different first operations
-    g!(v, "new_input<Element> forced by value()", "E", true, |cs, i| { let e = e1(i); let var = ElementVar::new_input(cs.clone(), || Ok(e))?; let _ = var.value(); Ok(OutVar::E(var)) }, |i| Some(Out::E(e1(i))));
-    g!(v, "new_input<Element> forced by compress_to_field() then value()", "E", true, |cs, i| { let e = e1(i); let var = ElementVar::new_input(cs.clone(), || Ok(e))?; let _ = var.compress_to_field()?; let _ = var.value(); Ok(OutVar::E(var)) }, |i| Some(Out::E(e1(i))));
+    g!(v, "new_input<Element> forced by value()", "E", true, |cs, i| { let e = e1(i); let var = ElementVar::new_input(cs.clone(), val(e))?; let _ = var.value(); Ok(OutVar::E(var)) }, |i| Some(Out::E(e1(i))));
+    g!(v, "new_input<Element> forced by compress_to_field() then value()", "E", true, |cs, i| { let e = e1(i); let var = ElementVar::new_input(cs.clone(), val(e))?; let _ = var.compress_to_field()?; let _ = var.value(); Ok(OutVar::E(var)) }, |i| Some(Out::E(e1(i))));
     g!(v, "new_witness<Fq> forced by value()", "F", true, |cs, i| { let var = lazy_w(cs, &f1(i))?; let _ = var.value(); Ok(OutVar::E(var)) }, |i| dec(&f1(i).to_bytes_le()).ok().map(Out::E));
     g!(v, "new_witness<Fq> forced by negate()", "F", true, |cs, i| Ok(OutVar::E(lazy_w(cs, &f1(i))?.negate()?)), |i| dec(&f1(i).to_bytes_le()).ok().map(|e| Out::E(-e)));
     g!(v, "new_witness<Fq> forced by double()", "F", true, |cs, i| Ok(OutVar::E(lazy_w(cs, &f1(i))?.double()?)), |i| dec(&f1(i).to_bytes_le()).ok().map(|e| Out::E(e + e)));
@@ -330,13 +389,13 @@ pub fn gadgets() -> Vec<Gadget> {
     g!(v, "is_nonnegative", "F", false, |cs, i| Ok(OutVar::B(wf(cs, &f1(i))?.is_nonnegative()?)), |i| Some(Out::B(f1(i).to_bytes_le()[0] & 1 == 0)));
     g!(v, "abs", "F", false, |cs, i| Ok(OutVar::F(wf(cs, &f1(i))?.abs()?)), |i| Some(Out::F(if f1(i).to_bytes_le()[0] & 1 == 0 { f1(i) } else { -f1(i) })));
     // --- allocation modes
-    g!(v, "new_witness<Element>", "E", true, |cs, i| { let e = e1(i); Ok(OutVar::E(ElementVar::new_witness(cs.clone(), || Ok(e))?)) }, |i| Some(Out::E(e1(i))));
-    g!(v, "new_witness<AffinePoint>", "E", true, |cs, i| { let a: Af = e1(i).into(); Ok(OutVar::E(ElementVar::new_witness(cs.clone(), || Ok(a))?)) }, |i| Some(Out::E(e1(i))));
+    g!(v, "new_witness<Element>", "E", true, |cs, i| { let e = e1(i); Ok(OutVar::E(ElementVar::new_witness(cs.clone(), val(e))?)) }, |i| Some(Out::E(e1(i))));
+    g!(v, "new_witness<AffinePoint>", "E", true, |cs, i| { let a: Af = e1(i).into(); Ok(OutVar::E(ElementVar::new_witness(cs.clone(), val(a))?)) }, |i| Some(Out::E(e1(i))));
     g!(v, "new_constant<Element>", "E", false, |cs, i| { let e = e1(i); Ok(OutVar::E(ElementVar::new_constant(cs.clone(), e)?)) }, |i| Some(Out::E(e1(i))));
-    g!(v, "new_input<Element>", "E", true, |cs, i| { let e = e1(i); let var = ElementVar::new_input(cs.clone(), || Ok(e))?; let _ = var.cs(); Ok(OutVar::E(var)) }, |i| Some(Out::E(e1(i))));
-    g!(v, "new_input<AffinePoint>", "E", true, |cs, i| { let a: Af = e1(i).into(); let var = ElementVar::new_input(cs.clone(), || Ok(a))?; let _ = var.cs(); Ok(OutVar::E(var)) }, |i| Some(Out::E(e1(i))));
-    g!(v, "new_witness<Fq> (lazy encoding) + value", "F", true, |cs, i| { let x = f1(i); let var: ElementVar = AllocVar::<Fq, Fq>::new_witness(cs.clone(), || Ok(x))?; let _ = var.cs(); Ok(OutVar::E(var)) }, |i| dec(&f1(i).to_bytes_le()).ok().map(Out::E));
-    g!(v, "new_input<Fq> (lazy encoding) + value", "F", true, |cs, i| { let x = f1(i); let var: ElementVar = AllocVar::<Fq, Fq>::new_input(cs.clone(), || Ok(x))?; let _ = var.cs(); Ok(OutVar::E(var)) }, |i| dec(&f1(i).to_bytes_le()).ok().map(Out::E));
+    g!(v, "new_input<Element>", "E", true, |cs, i| { let e = e1(i); let var = ElementVar::new_input(cs.clone(), val(e))?; let _ = var.cs(); Ok(OutVar::E(var)) }, |i| Some(Out::E(e1(i))));
+    g!(v, "new_input<AffinePoint>", "E", true, |cs, i| { let a: Af = e1(i).into(); let var = ElementVar::new_input(cs.clone(), val(a))?; let _ = var.cs(); Ok(OutVar::E(var)) }, |i| Some(Out::E(e1(i))));
+    g!(v, "new_witness<Fq> (lazy encoding) + value", "F", true, |cs, i| { let x = f1(i); let var: ElementVar = AllocVar::<Fq, Fq>::new_witness(cs.clone(), val(x))?; let _ = var.cs(); Ok(OutVar::E(var)) }, |i| dec(&f1(i).to_bytes_le()).ok().map(Out::E));
+    g!(v, "new_input<Fq> (lazy encoding) + value", "F", true, |cs, i| { let x = f1(i); let var: ElementVar = AllocVar::<Fq, Fq>::new_input(cs.clone(), val(x))?; let _ = var.cs(); Ok(OutVar::E(var)) }, |i| dec(&f1(i).to_bytes_le()).ok().map(Out::E));
     g!(v, "new_variable_omit_prime_order_check", "E", false, |cs, i| Ok(OutVar::E(raw(cs, &e1(i))?)), |i| Some(Out::E(e1(i))));
     g!(v, "CurveVar::constant", "E", false, |_cs, i| Ok(OutVar::E(<ElementVar as CurveVar<El, Fq>>::constant(e1(i)))), |i| Some(Out::E(e1(i))));
     g!(v, "CurveVar::zero + Var", "E", false, |cs, i| Ok(OutVar::E(<ElementVar as CurveVar<El, Fq>>::zero() + raw(cs, &e1(i))?)), |i| Some(Out::E(e1(i))));
